@@ -75,6 +75,22 @@ class Obj:
         return f"<{self.tag}>"
 
 
+class Fn:
+    """A rule-supplied model of a callee (e.g. a pure helper evaluated by its own Explorer run)."""
+
+    def __init__(self, name: str, f: Callable[..., object]) -> None:
+        self.name, self.f = name, f
+
+    def __call__(self, *a: object, **k: object) -> object:
+        return self.f(*a, **k)
+
+    def __hash__(self) -> int:
+        return hash(self.name)
+
+    def __eq__(self, o: object) -> bool:
+        return isinstance(o, Fn) and o.name == self.name
+
+
 class FD:
     """Frozen dict (hashable) for configuration mappings such as ``self._levels``."""
 
@@ -96,6 +112,9 @@ class FD:
 
     def __iter__(self):
         return iter(self._d)
+
+    def get(self, k: object, default: object = None) -> object:
+        return self._d.get(k, default)
 
     def __len__(self) -> int:
         return len(self._d)
@@ -318,6 +337,15 @@ def _call(e: ast.Call, env: dict[str, object]) -> object:
     if any(isinstance(a, ast.Starred) for a in e.args) or any(k.arg is None for k in e.keywords):
         raise Unknown("splat call")
     f = e.func
+    if isinstance(f, ast.Name) and f.id == "isinstance" and len(e.args) == 2 and not e.keywords:
+        v = xeval(e.args[0], env)
+        tnames = [t.id for t in (e.args[1].elts if isinstance(e.args[1], ast.Tuple) else [e.args[1]]) if isinstance(t, ast.Name)]
+        table = {"bytes": bytes, "str": str, "int": int, "bool": bool, "tuple": tuple}
+        if isinstance(v, _PLAIN) and tnames and all(t in table for t in tnames):
+            return isinstance(v, tuple(table[t] for t in tnames))
+        raise Unknown("isinstance")
+    if isinstance(f, ast.Name) and isinstance(env.get(f.id), Fn):
+        return env[f.id](*[xeval(a, env) for a in e.args], **{k.arg: xeval(k.value, env) for k in e.keywords})  # type: ignore[operator,misc]
     if isinstance(f, ast.Name):
         args = [xeval(a, env) for a in e.args]
         n = f.id
@@ -951,7 +979,7 @@ def turn_facts(ctx: Ctx) -> TurnFacts:
     return TurnFacts(
         fi, cfg, loops[0], w, sink, gv.func.value.id, rets[0], procs[0], flushes[0], fst, acc,
         [c for c in walk_scope(loops[0]) if isinstance(c, ast.Call) and last_attr(c) == "tell"],
-        calls_to(ctx, fi, "_write_error_batch"),
+        error_write_calls(ctx, fi),
         calls_to(ctx, fi, "predict_externalize_bytes_for_collector"),
         owns[0] if owns else None,
         [c for c in walk_scope(fi.node) if isinstance(c, ast.Call) and last_attr(c) == "get" and isinstance(c.func, ast.Attribute) and txt(c.func.value).split(".")[-1] == "_current_response_codec"],
@@ -1027,3 +1055,42 @@ def check_turn_measure(ctx: Ctx, tf: TurnFacts, rule_prefix: str = "producer") -
               ok="the measured stream is the IPC writer's sink on every path (or the sink is flushed before measuring)",
               bad=(bad[0] if bad else "") + ": bytes held by the buffering codec layer are invisible to the cap test, so the turn keeps producing after the body passed max_response_bytes "
               "(overshoot by many batches, not one)")
+
+
+def pure_fn(ctx: Ctx, fi: FunctionInfo, base_env: dict[str, object] | None = None) -> Fn:
+    """Model a pure repo helper by evaluating its body (guards decided, no exceptional edges) on the
+    given argument values; Unknown when it does not reduce to a single returned value."""
+    a = fi.node.args
+    pos = [p.arg for p in [*a.posonlyargs, *a.args]]
+
+    def call(*args: object, **kw: object) -> object:
+        env = dict(base_env or {})
+        env.update(dict(zip(pos, args)))
+        env.update(kw)
+        o = Explorer(ctx, fi, follow_exc=False).run(env)
+        if o.raises and not o.returns:
+            raise Unknown(f"{fi.name} raises {sorted(o.raised_classes())}")
+        vals = {r[1] for r in o.returns}
+        if o.undecided or len(vals) != 1 or TOP in vals:
+            raise Unknown(f"{fi.name} not evaluable")
+        return next(iter(vals))
+
+    return Fn(fi.name, call)
+
+
+def error_write_calls(ctx: Ctx, fi: FunctionInfo, extra_modules: tuple[str, ...] = ("vgi_rpc/http/server/_responses.py",)) -> list[ast.Call]:
+    """Calls in fi that put an EXCEPTION batch on the wire: `_write_error_batch` itself or any helper of
+    fi's module (or the shared response helpers) from which it is reachable."""
+    names = {"_write_error_batch"}
+    mods = [fi.module] + [ctx.repo.module(m) for m in extra_modules]
+    changed = True
+    while changed:
+        changed = False
+        for m in mods:
+            for f in m.functions.values():
+                if f.name in names or f.parent is not None or f.fq == fi.fq:
+                    continue
+                if any(isinstance(c, ast.Call) and last_attr(c) in names for c in walk_scope(f.node)):
+                    names.add(f.name)
+                    changed = True
+    return [c for c in walk_scope(fi.node) if isinstance(c, ast.Call) and last_attr(c) in names]
